@@ -31,17 +31,17 @@ pub fn seqlines_steps<N: Nd, const L: usize>(nd: &mut N) {
     let mut step = 0;
     while step < 5 {
         let remaining = back + 1 - front;
-        assert!(it.len() == remaining, "C20 SeqLines::len equals the number of lines still to come");
+        vassert!(it.len() == remaining, "C20 SeqLines::len equals the number of lines still to come");
         let (lo, hi) = it.size_hint();
-        assert!(lo <= remaining && hi == Some(remaining), "C20 SeqLines::size_hint brackets the remaining lines");
+        vassert!(lo <= remaining && hi == Some(remaining), "C20 SeqLines::size_hint brackets the remaining lines");
         let from_back = nd.bool();
         let got = if from_back { it.next_back() } else { it.next() };
         if remaining == 0 {
-            assert!(got.is_none(), "C20 SeqLines stays at the end once it reported the end");
+            vassert!(got.is_none(), "C20 SeqLines stays at the end once it reported the end");
         } else {
-            assert!(got.is_some(), "C20 SeqLines yields while lines remain");
+            vassert!(got.is_some(), "C20 SeqLines yields while lines remain");
             let k = if from_back { back } else { front };
-            assert!(same(got.unwrap(), &parts.buf, parts.line(k)), "C20 SeqLines yields each line exactly once (content)");
+            vassert!(same(got.unwrap(), &parts.buf, parts.line(k)), "C20 SeqLines yields each line exactly once (content)");
             if from_back {
                 back -= 1;
             } else {
@@ -67,13 +67,13 @@ pub fn seqlines_adaptors<N: Nd, const L: usize>(nd: &mut N) {
     while step < ML {
         match it.next() {
             Some((i, line)) => {
-                assert!(k > 0, "C20 enumerate().rev() yields no more items than lines");
+                vassert!(k > 0, "C20 enumerate().rev() yields no more items than lines");
                 k -= 1;
-                assert!(i == k, "C20 enumerate().rev() indices count down from the last line");
-                assert!(same(line, &parts.buf, parts.line(k + 1)), "C20 enumerate().rev() pairs index and line");
+                vassert!(i == k, "C20 enumerate().rev() indices count down from the last line");
+                vassert!(same(line, &parts.buf, parts.line(k + 1)), "C20 enumerate().rev() pairs index and line");
             }
             None => {
-                assert!(k == 0, "C20 enumerate().rev() yields every line");
+                vassert!(k == 0, "C20 enumerate().rev() yields every line");
             }
         }
         step += 1;
@@ -84,12 +84,12 @@ pub fn seqlines_adaptors<N: Nd, const L: usize>(nd: &mut N) {
         it2.next();
         let mut e = it2.enumerate();
         let last = e.next_back();
-        assert!(last.is_some() && last.unwrap().0 == nlines - 2, "C20 enumerate after one front step indexes from the new front");
+        vassert!(last.is_some() && last.unwrap().0 == nlines - 2, "C20 enumerate after one front step indexes from the new front");
     }
-    assert!(rec.seq_lines().rev().count() == nlines, "C20 rev().count()");
-    assert!(rec.seq_lines().skip(1).len() == nlines.saturating_sub(1), "C20 skip(1).len()");
-    assert!(rec.seq_lines().zip(rec.seq_lines()).len() == nlines, "C20 zip().len()");
-    assert!(rec.num_seq_lines() == nlines, "C20 num_seq_lines");
+    vassert!(rec.seq_lines().rev().count() == nlines, "C20 rev().count()");
+    vassert!(rec.seq_lines().skip(1).len() == nlines.saturating_sub(1), "C20 skip(1).len()");
+    vassert!(rec.seq_lines().zip(rec.seq_lines()).len() == nlines, "C20 zip().len()");
+    vassert!(rec.num_seq_lines() == nlines, "C20 num_seq_lines");
     cover!(k == 0, "all lines enumerated");
     std::mem::forget(bp);
 }
@@ -117,25 +117,18 @@ pub fn adaptors_l4<N: Nd>(nd: &mut N) {
 }
 
 harnesses! {
-    /// @meta props=C20 tier=quick kind=R timeout=600 mem=10 bounds="record from parts under the record invariant: buffer <= 8 symbolic bytes, 0 sequence lines, every sequence of 5 front/back steps"
-    #[kani::unwind(10)]
+    /// @meta props=C20 tier=quick kind=R timeout=600 mem=10 bounds="record from parts under the record invariant: buffer <= 8 symbolic bytes, 0 sequence lines, every sequence of 5 front/back steps" unwind=10
     c20_seqlines_steps_l1 => steps_l1;
-    /// @meta props=C20 tier=quick kind=R timeout=600 mem=10 bounds="record from parts: buffer <= 8 symbolic bytes, 1 sequence line, every sequence of 5 front/back steps"
-    #[kani::unwind(10)]
+    /// @meta props=C20 tier=quick kind=R timeout=600 mem=10 bounds="record from parts: buffer <= 8 symbolic bytes, 1 sequence line, every sequence of 5 front/back steps" unwind=10
     c20_seqlines_steps_l2 => steps_l2;
-    /// @meta props=C20 tier=quick kind=R timeout=600 mem=10 bounds="record from parts: buffer <= 8 symbolic bytes, 2 sequence lines, every sequence of 5 front/back steps"
-    #[kani::unwind(10)]
+    /// @meta props=C20 tier=quick kind=R timeout=600 mem=10 bounds="record from parts: buffer <= 8 symbolic bytes, 2 sequence lines, every sequence of 5 front/back steps" unwind=10
     c20_seqlines_steps_l3 => steps_l3;
-    /// @meta props=C20 tier=quick kind=R timeout=600 mem=10 bounds="record from parts: buffer <= 8 symbolic bytes, 3 sequence lines, every sequence of 5 front/back steps"
-    #[kani::unwind(10)]
+    /// @meta props=C20 tier=quick kind=R timeout=600 mem=10 bounds="record from parts: buffer <= 8 symbolic bytes, 3 sequence lines, every sequence of 5 front/back steps" unwind=10
     c20_seqlines_steps_l4 => steps_l4;
-    /// @meta props=C20 tier=quick kind=R timeout=600 mem=10 bounds="record from parts: buffer <= 8 bytes, 0 lines; enumerate/rev/skip/zip"
-    #[kani::unwind(10)]
+    /// @meta props=C20 tier=quick kind=R timeout=600 mem=10 bounds="record from parts: buffer <= 8 bytes, 0 lines; enumerate/rev/skip/zip" unwind=10
     c20_seqlines_adaptors_l1 => adaptors_l1;
-    /// @meta props=C20 tier=quick kind=R timeout=600 mem=10 bounds="record from parts: buffer <= 8 bytes, 2 lines; enumerate/rev/skip/zip"
-    #[kani::unwind(10)]
+    /// @meta props=C20 tier=quick kind=R timeout=600 mem=10 bounds="record from parts: buffer <= 8 bytes, 2 lines; enumerate/rev/skip/zip" unwind=10
     c20_seqlines_adaptors_l3 => adaptors_l3;
-    /// @meta props=C20 tier=quick kind=R timeout=600 mem=10 bounds="record from parts: buffer <= 8 bytes, 3 lines; enumerate/rev/skip/zip"
-    #[kani::unwind(10)]
+    /// @meta props=C20 tier=quick kind=R timeout=600 mem=10 bounds="record from parts: buffer <= 8 bytes, 3 lines; enumerate/rev/skip/zip" unwind=10
     c20_seqlines_adaptors_l4 => adaptors_l4;
 }
